@@ -334,6 +334,13 @@ C04_MemForms(zz) ==
 \cup { L4("mulx", <<G(w, a), G(w, b), W(m, w, KW(w))>>) : w \in {32, 64}, a \in {0, 15}, b \in {7, 8}, m \in MemV }
 \cup { L4("rorx", <<G(w, a), W(m, w, KW(w)), ImHex(5)>>) : w \in {32, 64}, a \in {0, 15}, m \in MemV }
 \cup { L4(mn, <<G(w, a), W(m, w, KW(w))>>) : mn \in {"adcx", "adox"}, w \in {32, 64}, a \in {0, 15}, m \in MemV }
+\* the imm8 forms next to the memory shapes NASM-style rewriting touches, with the immediate written in decimal and in hexadecimal (the
+\* spelling of an immediate selects a tokenizer path of its own; it must not reach the SIB options)
+\cup { L4(mn, <<Yr(a), Yr(b), W(m, 256, ""), im>>) : mn \in {"vperm2i128", "vperm2f128"}, a \in {0, 15}, b \in {8}, im \in {ImDec(49), ImHex(49)},
+         m \in { Mem("", 0, 64, 0, 4, 0, "is", NoD), Mem("", 0, 64, 9, 4, 0, "is", D(FALSE, <<16,0,0,0>>, "hex")), Mem("", 0, 64, -1, 13, 1, "si", NoD),
+                 Mem("", 0, 64, -1, 3, 2, "si", NoD), Mem("", 0, 64, -1, 9, 2, "si", D(FALSE, <<16,0,0,0>>, "hex")) } }
+\cup { L4("rorx", <<G(w, a), W(m, w, ""), im>>) : w \in {32, 64}, a \in {0, 15}, im \in {ImDec(5), ImHex(5)},
+         m \in { Mem("", 0, 64, 0, 4, 0, "is", NoD), Mem("", 0, 64, -1, 13, 1, "si", NoD), Mem("", 0, 64, -1, 3, 2, "si", NoD) } }
 \* ... and a `byte` in front of the imm8 of the VEX forms (not documented: the line may be rejected, an accepted one must be right)
 \cup { Rec("C04", "MayReject", "rorx", <<G(w, a), G(w, b), [ImHex(5) EXCEPT !.kw = "byte"]>>) : w \in {32, 64}, a \in {0, 15}, b \in {7, 8} }
 \cup { Rec("C04", "MayReject", "rorx", <<G(w, a), W(m, w, ""), [ImHex(5) EXCEPT !.kw = "byte"]>>) : w \in {32, 64}, a \in {0, 15}, m \in MemV }
